@@ -279,6 +279,17 @@ func (p *pkgInfo) eval(e ast.Expr, iotaV int) val {
 			return val{big.NewInt(0), "dec36"}
 		case "NewInt", "NewIntFromUint64", "int64", "uint64", "uint", "int", "time.Duration", "Duration":
 			return val{p.evalInt(arg(0), iotaV), "int"}
+		case "MustMonotonicSqrt":
+			x := p.eval(arg(0), iotaV)
+			if x.scale != "dec18" || x.v.Sign() < 0 {
+				fail("MustMonotonicSqrt of %s", show(e))
+			}
+			v := new(big.Int).Mul(x.v, pow10(18))
+			r := new(big.Int).Sqrt(v)
+			if new(big.Int).Mul(r, r).Cmp(v) < 0 {
+				r.Add(r, big.NewInt(1))
+			}
+			return val{r, "dec18"}
 		case "BigDecFromDec":
 			x := p.eval(arg(0), iotaV)
 			if x.scale != "dec18" {
